@@ -46,7 +46,7 @@ pub fn run(ctx: &Ctx) -> Report {
 		panic!("resolution model self-check failed: {e}");
 	}
 	let mut total = Report::new();
-	total.rule = "all pairs (base, reference): bases = s x {no authority, empty authority, h} x PATH(n) over {'' . .. a b:c} x {no query, '', q}; references = {no scheme, t} x {no authority, '', g} x PATH(m) over {'' . .. g %2E%2E ... (é)} x {no query, '', y} x {no fragment, s} (every RFC 5.2.2 branch), plus long paths and a sub-domain with '/', '?' and ':' inside queries and fragments on both sides; each through resolved / resolve / into_resolved and compared with a transcription of RFC 3986 5.2.2-5.2.4 + Errata 4547 + 5.3 (itself checked against the 42 examples of RFC 5.4); non-trivial = distinct pair".into();
+	total.rule = "all pairs (base, reference): bases = s x {no authority, empty authority, h} x PATH(n) over {'' . .. a b:c} x {no query, '', q}; references = {no scheme, t} x {no authority, '', g} x PATH(m) over {'' . .. g %2E%2E ... (é)} x {no query, '', y} x {no fragment, s} (every RFC 5.2.2 branch), plus plain references with PATH(m+1) over {'' . .. g}, long paths and a sub-domain with '/', '?' and ':' inside queries and fragments on both sides; each through resolved / resolve / into_resolved and compared with a transcription of RFC 3986 5.2.2-5.2.4 + Errata 4547 + 5.3 (itself checked against the 42 examples of RFC 5.4); non-trivial = distinct pair".into();
 	let (bn, rn) = ctx.pick((2usize, 3usize), (3usize, 4usize));
 	for f in Family::active() {
 		let fr = FamRefs::new(refs, f);
@@ -86,6 +86,20 @@ pub fn run(ctx: &Ctx) -> Report {
 				.into_iter()
 				.map(|(t, _)| t),
 		);
+		// runs of empty segments next to dot segments, one segment longer than the main domain (a
+		// target path may start with SEVERAL empty segments); plain references, with and without scheme
+		{
+			let structural: Vec<Vec<u8>> = ["", ".", "..", "g"].iter().map(|s| domains::b(s)).collect();
+			for p in domains::paths(&structural, rn + 1) {
+				if p.split(|c| *c == b'/').count() < rn + 1 + usize::from(p.starts_with(b"/")) {
+					continue;
+				}
+				rs.push(p.clone());
+				let mut t = b"t:".to_vec();
+				t.extend_from_slice(&p);
+				rs.push(t);
+			}
+		}
 		bs.sort();
 		bs.dedup();
 		rs.sort();
